@@ -77,7 +77,9 @@ func genC08(seed uint64, tier string) *Case {
 			case 2, 3, 4:
 				items = append(items, "t:"+[]string{"role", "dc", "v", "missing"}[g.Intn(4)]+"="+c08Exprs[g.Intn(len(c08Exprs))])
 			case 5:
-				items = append(items, "bad")
+				// undecodable in different ways: garbage body, nothing but the type byte, a
+				// well-formed filter that selects this node cut short
+				items = append(items, []string{"bad", "bad", "cut0", "cut1", "cutt", "cutn"}[g.Intn(6)])
 			default:
 				items = append(items, "unk")
 			}
@@ -184,6 +186,23 @@ func execC08(r *Run) {
 					filters = append(filters, []byte{1, 0xc1, 0xff, 0x00}) // tag filter type, undecodable body
 					want = false
 					r.Fault("undecodable-filter")
+				case it == "cut0" || it == "cut1" || it == "cutt" || it == "cutn":
+					var f []byte
+					switch it {
+					case "cut0":
+						f = wEncFilterTag("role", "")[:1]
+					case "cut1":
+						f = wEncFilterNodes([]string{me})[:1]
+					case "cutt":
+						f = wEncFilterTag("role", ".*")
+						f = f[:len(f)-2]
+					case "cutn":
+						f = wEncFilterNodes([]string{me, "other"})
+						f = f[:len(f)-3]
+					}
+					filters = append(filters, f)
+					want = false
+					r.Fault("truncated-filter")
 				case it == "unk":
 					filters = append(filters, []byte{9, 0x90})
 					want = false
